@@ -51,6 +51,42 @@ func only(p *Profile, kinds map[string]int) *Profile {
 	return p
 }
 
+// ProfileForRun varies the profile with the run number for properties that quantify over
+// every request kind: C02's runs rotate through the general mix and the task-, lock-,
+// registration- and schedule-centred mixes of the properties that own those entities, so that
+// the races those mixes reach are also judged against the sequential specification.
+func ProfileForRun(prop string, run int) *Profile {
+	if prop == "C02" {
+		switch run % 8 {
+		case 1:
+			p := ProfileFor("C07")
+			p.Name = "C02/tasks"
+			return p
+		case 3:
+			p := ProfileFor("C09")
+			p.Name = "C02/locks"
+			return p
+		case 5:
+			p := ProfileFor("C05")
+			p.Name = "C02/registrations"
+			return p
+		case 7:
+			p := ProfileFor("C10")
+			p.Name = "C02/schedules"
+			return p
+		}
+	}
+	if prop == "C11" && run%3 == 1 {
+		// convergence of the task tables: the general mix rarely gets a task as far as a transport
+		p := ProfileFor("C08")
+		p.Name = "C11/tasks"
+		p.PTiny = 0.4
+		p.PJump = 0.15
+		return p
+	}
+	return ProfileFor(prop)
+}
+
 // ProfileFor returns the generation profile of a property's check.
 func ProfileFor(prop string) *Profile {
 	p := baseProfile(prop)
@@ -138,6 +174,7 @@ func ProfileFor(prop string) *Profile {
 		p.MaxReqs = 80
 		p.MaxSteps = 200
 		p.PRouted = 0.1
+		p.RichTags = true
 	case "C13":
 		p.PFront = 1
 		p.PHostile = 0.55
